@@ -297,7 +297,7 @@ impl CheckDef for Sp {
 }
 
 pub fn run(ctx: &mut Ctx) {
-    ctx.rule("SP: generated write-size sequences (1 B..5*mss, up to 40/80 writes) with gaps, scripted peer ACK timings (immediate, delayed, batched, one at a time), both Nagle settings, with and without MTU probing, in a third of the cases honest selective acks behind a hole and repeated older acks, peer window huge or small (window_limited class: only 'no byte lost'). Oracle: Nagle on => no first transmission smaller than the usable segment size while earlier data is unacknowledged unless the window limits it; the held tail leaves at the instant the pipe drains; Nagle off => at every processed peer packet everything buffered leaves within the slow-start allowance (until the acks first amount to loss evidence; not while a real, not selectively acknowledged, size probe is outstanding); concatenation of first transmissions == bytes written. non-trivial = a write smaller than mss issued while data was outstanding; distinct by hash of (segment length, #unacked) sequence");
+    ctx.rule("SP: generated write-size sequences (1 B..5*mss, up to 40/80 writes) with gaps, scripted peer ACK timings (immediate, delayed, batched, one at a time), both Nagle settings, with and without MTU probing, in a third of the cases honest selective acks behind a hole and repeated older acks, peer window huge or small (window_limited class: only 'no byte lost'). Oracle: Nagle on => no first transmission smaller than the usable segment size while earlier data is unacknowledged unless the window limits it (a provably fresh cut — at the instant of a write, carrying exactly the untransmitted bytes — is limited by the window only if it fills the room that is left: checked in every class); the held tail leaves at the instant the pipe drains; Nagle off => at every processed peer packet everything buffered leaves within the slow-start allowance (until the acks first amount to loss evidence; not while a real, not selectively acknowledged, size probe is outstanding); concatenation of first transmissions == bytes written. non-trivial = a write smaller than mss issued while data was outstanding; distinct by hash of (segment length, #unacked) sequence");
     ctx.replay_corpus::<Sp>();
     ctx.run_generated::<Sp>(ctx.tier.pick(60_000, 2_500_000));
 }
